@@ -43,20 +43,20 @@ func ShutDown(
 		return AlreadyShutdownError
 	}
 
+	var errCode = "shutdown_" + p.Type().String() + "_failed"
+	if err := smartcontractinterface.AuthorizeWithOwner(errCode, func() bool {
+		return ownerId == clientId || clientId == sp.GetSettings().DelegateWallet
+	}); err != nil {
+		return err
+	}
+
 	p.ShutDown()
 
 	if err = sp.Kill(killSlash, p.Id(), p.Type(), balances); err != nil {
 		return fmt.Errorf("can't kill the stake pool: %v", err)
 	}
 
-	if err = sp.Save(p.Type(), clientId, balances); err != nil {
-		return err
-	}
-
-	var errCode = "shutdown_" + p.Type().String() + "_failed"
-	if err := smartcontractinterface.AuthorizeWithOwner(errCode, func() bool {
-		return ownerId == clientId || clientId == sp.GetSettings().DelegateWallet
-	}); err != nil {
+	if err = sp.Save(p.Type(), req.ID, balances); err != nil {
 		return err
 	}
 
